@@ -125,7 +125,11 @@ func init() {
 				vs = append(vs, bulk("MATCH"), bulkB(genKey(r)))
 			}
 			if r.chance(1, 2) {
-				vs = append(vs, bulk("COUNT"), bulk(strconv.Itoa(1+r.intn(100))))
+				cnt := 1 + r.intn(100)
+				if r.chance(1, 4) {
+					cnt = []int{999, 1000, 1001, 5000, 10000, 10001, 65536, 1000000}[r.intn(8)]
+				}
+				vs = append(vs, bulk("COUNT"), bulk(strconv.Itoa(cnt)))
 			}
 			if r.chance(1, 5) {
 				// options as clients mistype them: a name without its value, values that are no numbers, huge or negative, unknown names
